@@ -56,13 +56,13 @@ type Clause struct {
 }
 
 type Contract struct {
-	Key     string
-	Clauses []*Clause
-	Trusted string
-	Nilable bool // receiver may be nil
-	UnreachableReturns int // returns that are expected to be unreachable under the contract
-	Line    int
-	Lemma   bool
+	Key                string
+	Clauses            []*Clause
+	Trusted            string
+	Nilable            bool // receiver may be nil
+	UnreachableReturns int  // returns that are expected to be unreachable under the contract
+	Line               int
+	Lemma              bool
 }
 
 type PureDef struct {
@@ -75,13 +75,15 @@ type PureDef struct {
 type PureParam struct{ Name, Type string }
 
 type ContractFile struct {
-	Funcs     map[string]*Contract
-	Ariths    map[string]*PureDef
-	Pures     map[string]*PureDef
-	Ghost     []GhostField
-	Immutable []string
-	Stable    []string
-	Lines     int
+	Funcs       map[string]*Contract
+	Ariths      map[string]*PureDef
+	Pures       map[string]*PureDef
+	Ghost       []GhostField
+	Immutable   []string
+	Stable      []string
+	NonNilElems map[string]bool // map-typed fields whose values are never nil
+	NonNil      map[string]bool // component names F.T.f whose value is never nil once the object is constructed
+	Lines       int
 }
 type GhostField struct{ Type, Field, Sort string }
 
@@ -96,7 +98,7 @@ func parseContractFile(path string) (*ContractFile, error) {
 		return nil, err
 	}
 	defer f.Close()
-	cf := &ContractFile{Funcs: map[string]*Contract{}, Pures: map[string]*PureDef{}, Ariths: map[string]*PureDef{}}
+	cf := &ContractFile{Funcs: map[string]*Contract{}, Pures: map[string]*PureDef{}, Ariths: map[string]*PureDef{}, NonNil: map[string]bool{}, NonNilElems: map[string]bool{}}
 	sc := bufio.NewScanner(f)
 	sc.Buffer(make([]byte, 1<<20), 1<<20)
 	var logical []struct {
@@ -176,6 +178,20 @@ func parseContractFile(path string) (*ContractFile, error) {
 				return nil, fail(fmt.Errorf("bad ghost field"))
 			}
 			cf.Ghost = append(cf.Ghost, GhostField{m[1], m[2], strings.TrimSpace(m[3])})
+			cur = nil
+		case strings.HasPrefix(t, "nonnil-elems "):
+			for _, f := range strings.Split(t[len("nonnil-elems "):], ",") {
+				if f = strings.TrimSpace(f); f != "" {
+					cf.NonNilElems["F."+f] = true
+				}
+			}
+			cur = nil
+		case strings.HasPrefix(t, "nonnil "):
+			for _, f := range strings.Split(t[len("nonnil "):], ",") {
+				if f = strings.TrimSpace(f); f != "" {
+					cf.NonNil["F."+f] = true
+				}
+			}
 			cur = nil
 		case strings.HasPrefix(t, "stable "):
 			for _, f := range strings.Split(t[len("stable "):], ",") {
